@@ -1876,7 +1876,8 @@ fn cmu_cleanup(_pref_manager: Ref<PreferenceManager>, raw_braille: String) -> St
 
     fn has_left_dots(ch: char) -> bool {
         // Unicode braille is set up so dot 1 is 2^0, dot 2 is 2^1, etc
-        return ( (ch as u32 - 0x2800) >> 4 ) > 0;
+        // a character without a braille translation is passed through, so 'ch' need not be a braille cell
+        return ( (ch as u32).saturating_sub(0x2800) >> 4 ) > 0;
     }
 }
 
